@@ -36,6 +36,12 @@ func runC17(c *core.Ctx) {
 	r := c.R
 	rounds := r.Range(4, 20)
 	for round := 0; round < rounds; round++ {
+		if r.Chance(1, 8) {
+			if !c17abnormal(c, r) {
+				return
+			}
+			continue
+		}
 		arity := 1 + r.Intn(3)
 		ng := r.Range(2, 32)
 		late := r.Intn(4)
@@ -129,4 +135,61 @@ func runC17(c *core.Ctx) {
 	if c.WantSample() {
 		c.Sample(map[string]any{"rounds": rounds, "what": "fresh OnceN per round, 2..32 goroutines behind a barrier + 0..3 late callers, own function per caller"})
 	}
+}
+
+// c17abnormal: the first action exits abnormally (panics - the caller recovers -
+// or calls runtime.Goexit). "Whatever functions they pass, exactly one of those
+// functions is invoked, exactly once": later and concurrent Do calls must not run
+// their functions.
+func c17abnormal(c *core.Ctx, r *core.Rand) bool {
+	arity := 1 + r.Intn(3)
+	goexit := r.Bool()
+	var inv atomic.Int64
+	var o1 sync2.Once1[int64]
+	var o2 sync2.Once2[int64, string]
+	var o3 sync2.Once3[int64, string, [3]int64]
+	do := func(f func() (int64, string, [3]int64)) {
+		switch arity {
+		case 1:
+			o1.Do(func() int64 { x, _, _ := f(); return x })
+		case 2:
+			o2.Do(func() (int64, string) { x, y, _ := f(); return x, y })
+		case 3:
+			o3.Do(f)
+		}
+	}
+	first := make(chan struct{})
+	go func() {
+		defer close(first)
+		defer func() { recover() }()
+		do(func() (int64, string, [3]int64) {
+			inv.Add(1)
+			if goexit {
+				runtime.Goexit()
+			}
+			panic("first action panics")
+		})
+	}()
+	<-first
+	ng := r.Range(1, 8)
+	var wg sync.WaitGroup
+	for g := 0; g < ng; g++ {
+		wg.Add(1)
+		go func() {
+			defer wg.Done()
+			do(func() (int64, string, [3]int64) { inv.Add(1); return 1, "x", [3]int64{1, 2, 3} })
+		}()
+	}
+	wg.Wait()
+	do(func() (int64, string, [3]int64) { inv.Add(1); return 2, "y", [3]int64{} })
+	c.Count("rounds_abnormal_first_action", 1)
+	if n := inv.Load(); n != 1 {
+		how := "panicked"
+		if goexit {
+			how = "called runtime.Goexit"
+		}
+		c.Violate(fmt.Sprintf("Once%d:invocations-after-abnormal-exit", arity), fmt.Sprintf("the first action %s; afterwards %d further functions were invoked by later Do calls (exactly one function may ever be invoked)", how, n-1), map[string]any{"arity": arity, "goexit": goexit, "later_callers": ng + 1})
+		return false
+	}
+	return true
 }
